@@ -67,7 +67,7 @@ Proof.
   destruct (body s0) as [s1 [e1|]] eqn:Hb.
   - set (rearm := for_each (sched eng m) _).
     pose proof (pres_for_each same_cfg same_cfg_refl same_cfg_trans (sched eng m)
-                  (filter (fun x => mem x (exit_set_h m (s_cfg s0) (s_hist s0) (find_domain m (t_src t) tgt) tgt)) (sort_nat (s_cfg s0)))
+                  (filter (fun x => mem x (ext_exit_set m (s_cfg s0) (s_hist s0) (find_domain m (t_src t) tgt) tgt)) (sort_nat (s_cfg s0)))
                   (sched_same eng m) (with_cfg (s_cfg s0) s1)) as [Hc _].
     fold rearm in Hc. destruct (rearm (with_cfg (s_cfg s0) s1)) as [s3 [e3|]] eqn:Hr; simpl in Hc; intros H; inversion H; subst; exact Hc.
   - destruct eng; unfold bind, hook_trans, hook_notify, lift; simpl; intros H; discriminate H.
